@@ -665,6 +665,14 @@ func (w *worker[T, JobType]) stop() error {
 		return ErrNotRunningWorker
 	}
 
+	// A Resume may slip in after the wait: claim the stop before tearing anything down, pausing
+	// and waiting again if the worker was resumed meanwhile. Once the status is stopped nothing
+	// new is dispatched; what a Resume that came and went has dispatched is waited for.
+	for !w.status.CompareAndSwap(paused, stopped) {
+		w.PauseAndWait()
+	}
+	w.WaitUntilFinished()
+
 	// Restart replaces the cancel function under the mutex
 	w.mx.RLock()
 	cancel := w.cancel
